@@ -1245,11 +1245,24 @@ def _construct_params(ctx, g) -> set:
                             if isinstance(x, ast.Name) and x.id not in names:
                                 names.add(x.id)
                                 changed = True
+                if isinstance(st, ast.For):
+                    it_, en_ = U.unwrap_enumerate(st.iter)
+                    if isinstance(it_, ast.Name) and it_.id in names:
+                        tgt = st.target.elts[1] if en_ and isinstance(st.target, ast.Tuple) and len(st.target.elts) == 2 else st.target
+                        for x in ast.walk(tgt):
+                            if isinstance(x, ast.Name) and x.id not in names:
+                                names.add(x.id)
+                                changed = True
         only_edge_index = True
         for x in walk_shallow(g.node):
             if isinstance(x, ast.Name) and isinstance(x.ctx, ast.Load) and x.id in names:
                 if isinstance(parent(x), ast.Assign) and parent(x).value is x:
                     continue            # the alias definition itself
+                px = parent(x)
+                if isinstance(px, ast.Call) and call_name(px) in ("len", "enumerate") and x in px.args:
+                    continue            # how many edges / iteration over them
+                if isinstance(px, ast.For) and px.iter is x:
+                    continue
                 a_, inside = x, False
                 while a_ is not None and not isinstance(a_, ast.stmt):
                     pa = parent(a_)
@@ -1275,82 +1288,114 @@ def r7_kernel_registry_key(ctx, rid):
     for ch in chain_siblings(ctx):
         builders[ch.f.qual] = ch.f
     n_reg = 0
+
+    def varies_in(fn, x: ast.Name, life) -> bool:
+        """x (a name read in fn) is re-bound in a loop that runs inside the registry's lifetime"""
+        for d in ctx.rd(fn).defs_reaching(x):
+            if not isinstance(d, ast.stmt) or d is life:
+                continue
+            lp = d if isinstance(d, (ast.For, ast.While)) else U.loop_of(d)
+            while lp is not None and lp is not life:
+                if life is None or contains(life, lp):
+                    return True
+                lp = U.loop_of(lp)
+        return False
+
     for b in builders.values():
         relevant = _construct_params(ctx, b)
         for g, call in ctx.cg.call_sites_of(b):
-            pc = parent(call)
-            if not (isinstance(pc, ast.Assign) and pc.value is call and len(pc.targets) == 1 and isinstance(pc.targets[0], ast.Subscript)
-                    and isinstance(pc.targets[0].value, ast.Name)):
-                continue
-            M = pc.targets[0].value
-            if U.is_param(ctx, g, M) or not ctx.rd(g).is_local(M.id):
-                raise AnalysisError(f"{rid}: {g.qual}: the result of {b.qualname} is filed in `{M.id}`, which is not a local registry (unrecognised form)")
-            n_reg += 1
-            key = pc.targets[0].slice
-            if isinstance(key, ast.Name):
-                kv = U.single_value(ctx, g, key)
-                if kv is None:
-                    raise AnalysisError(f"{rid}: {g.qual}: registry key `{key.id}` has no single definition")
-                key = kv
-            # lifetime of the registry: from its creation; what is bound in loops nested inside the creating block varies
-            creations = [d for d in ctx.rd(g).defs_reaching(M) if isinstance(d, ast.stmt)]
-            if len(creations) != 1:
-                raise AnalysisError(f"{rid}: {g.qual}: the registry `{M.id}` is not created at exactly one place (unrecognised form)")
-            created = creations[0]
-            life = U.loop_of(created)          # None: the whole call of g
+            # registries of g: `M[key] = ...` on a dict that g also looks entries up in
+            regs = []
+            for st in walk_shallow(g.node):
+                if isinstance(st, ast.Assign) and len(st.targets) == 1 and isinstance(st.targets[0], ast.Subscript) \
+                        and isinstance(st.targets[0].value, ast.Name):
+                    M = st.targets[0].value
+                    if not (U.is_param(ctx, g, M) or ctx.rd(g).is_local(M.id)):
+                        continue
+                    looked_up = any(
+                        (isinstance(n, ast.Compare) and len(n.ops) == 1 and isinstance(n.ops[0], (ast.In, ast.NotIn))
+                         and isinstance(n.comparators[0], ast.Name) and n.comparators[0].id == M.id)
+                        or (isinstance(n, ast.Subscript) and isinstance(n.ctx, ast.Load) and isinstance(n.value, ast.Name) and n.value.id == M.id)
+                        or (isinstance(n, ast.Call) and call_name(n) in ("get", "setdefault") and isinstance(n.func, ast.Attribute)
+                            and isinstance(n.func.value, ast.Name) and n.func.value.id == M.id)
+                        for n in walk_shallow(g.node))
+                    # the entry must be what the builder produced: the call itself, or the re-pointed edge attribute read back
+                    produced = st.value is call or any(const_str(x.slice) == "source_var" for x in ast.walk(st.value) if isinstance(x, ast.Subscript))
+                    if looked_up and produced and st.lineno >= call.lineno:
+                        regs.append((st, M))
+            for st, M in regs:
+                n_reg += 1
+                key = st.targets[0].slice
+                if isinstance(key, ast.Name):
+                    kv = U.single_value(ctx, g, key)
+                    if kv is None:
+                        raise AnalysisError(f"{rid}: {g.qual}: registry key `{key.id}` has no single definition")
+                    key = kv
+                # where the registry lives: a local of g, or a dict handed in by g's only caller
+                if U.is_param(ctx, g, M):
+                    sites2 = ctx.cg.call_sites_of(g)
+                    if len(sites2) != 1:
+                        raise AnalysisError(f"{rid}: {g.qual}: the registry `{M.id}` is handed in by {len(sites2)} callers (unrecognised form)")
+                    h, c2 = sites2[0]
+                    outer = U.bind_args(g, c2)
+                    marg = outer.get(M.id)
+                    if not isinstance(marg, ast.Name):
+                        raise AnalysisError(f"{rid}: {g.qual}: the registry argument `{ast.unparse(marg) if marg is not None else '?'}` is not a local of the caller")
+                    home, mname = h, marg
+                else:
+                    h, outer, home, mname = None, {}, g, M
+                creations = [d for d in ctx.rd(home).defs_reaching(mname) if isinstance(d, ast.stmt)]
+                if len(creations) != 1:
+                    raise AnalysisError(f"{rid}: {home.qual}: the registry `{mname.id}` is not created at exactly one place (unrecognised form)")
+                life = U.loop_of(creations[0])          # None: the whole call of `home`
+                determined = {x.id for x in ast.walk(key) if isinstance(x, ast.Name)} | {M.id}
 
-            def varies(x: ast.Name) -> bool:
-                for d in ctx.rd(g).defs_reaching(x):
-                    if not isinstance(d, ast.stmt):
-                        continue
-                    if d is life:
-                        continue                # the variable of the loop that (re-)creates the registry
-                    lp = d if isinstance(d, (ast.For, ast.While)) else U.loop_of(d)
-                    while lp is not None and lp is not life:
-                        if life is None or contains(life, lp):
-                            return True
-                        lp = U.loop_of(lp)
-                return False
-
-            determined = {x.id for x in ast.walk(key) if isinstance(x, ast.Name)} | {M.id}
-
-            def is_determined(e, depth=0) -> bool:
-                for x in ast.walk(e):
-                    if not (isinstance(x, ast.Name) and isinstance(x.ctx, ast.Load)):
-                        continue
-                    if x.id in determined or U._comp_binding(x) is not None or not ctx.rd(g).is_local(x.id):
-                        continue
-                    if not varies(x):
-                        continue
-                    if depth >= 4:
-                        return False
-                    for d in ctx.rd(g).defs_reaching(x):
-                        if isinstance(d, (ast.For, ast.While)):
-                            return False
-                        if isinstance(d, ast.Assign):
-                            if not is_determined(d.value, depth + 1):
+                def is_determined(e, depth=0) -> bool:
+                    for x in ast.walk(e):
+                        if not (isinstance(x, ast.Name) and isinstance(x.ctx, ast.Load)):
+                            continue
+                        if x.id in determined or U._comp_binding(x) is not None:
+                            continue
+                        if U.is_param(ctx, g, x):
+                            if h is None:
+                                continue            # a parameter of the function that owns the registry does not change during its lifetime
+                            a2 = outer.get(x.id)
+                            if a2 is None:
+                                continue            # default value
+                            if any(isinstance(y, ast.Name) and isinstance(y.ctx, ast.Load) and ctx.rd(h).is_local(y.id) and varies_in(h, y, life)
+                                   for y in ast.walk(a2)):
                                 return False
-                        elif isinstance(d, ast.stmt):
+                            continue
+                        if not ctx.rd(g).is_local(x.id):
+                            continue
+                        if h is None and not varies_in(g, x, life):
+                            continue
+                        if depth >= 4:
                             return False
-                return True
+                        for d in ctx.rd(g).defs_reaching(x):
+                            if isinstance(d, (ast.For, ast.While)):
+                                return False
+                            if isinstance(d, ast.Assign):
+                                if not is_determined(d.value, depth + 1):
+                                    return False
+                            elif isinstance(d, ast.stmt):
+                                return False
+                    return True
 
-            binding = U.bind_args(b, call)
-            facts = {"registry": M.id, "key": ast.unparse(key), "call": norm(call, 120), "construct_parameters": sorted(relevant)}
-            missing = []
-            for p_, a_ in binding.items():
-                if p_ in relevant and not is_determined(a_):
-                    missing.append((p_, a_))
-            st = pc
-            label = f"re-use registry `{M.id}` of {b.qualname}"
-            if missing:
-                ctx.violation(rid, g, st, f"`{M.id}` hands the construct built by `{norm(call, 60)}` to every later edge with the same key "
-                                          f"`{ast.unparse(key)}`, but the key does not determine " +
-                              ", ".join(f"`{p_}={ast.unparse(a_)}`" for p_, a_ in missing) +
-                              f", which differs between entries filed in one `{M.id}` (it is re-bound in a loop inside the registry's lifetime): an "
-                                          f"edge whose source differs in it is pointed at the delayed copy of another source", facts, label=label)
-            else:
-                ctx.ok(rid, g, st, f"every argument that shapes the construct and varies during the registry's lifetime is determined by the key "
-                                   f"`{ast.unparse(key)}`", facts, label=label)
+                binding = U.bind_args(b, call)
+                facts = {"registry": M.id, "key": ast.unparse(key), "call": norm(call, 120), "construct_parameters": sorted(relevant),
+                         "registry_created_in": home.qualname}
+                missing = [(p_, a_) for p_, a_ in binding.items() if p_ in relevant and not is_determined(a_)]
+                label = f"re-use registry `{M.id}` of {b.qualname}"
+                if missing:
+                    ctx.violation(rid, g, st, f"`{M.id}` hands the construct built by `{norm(call, 60)}` to every later edge with the same key "
+                                              f"`{ast.unparse(key)[:90]}`, but the key does not determine " +
+                                  ", ".join(f"`{p_}={ast.unparse(a_)}`" for p_, a_ in missing) +
+                                              f", which differs between entries filed in one `{mname.id}` (it is re-bound in a loop inside the registry's "
+                                              f"lifetime): an edge whose source differs in it is pointed at the delayed copy of another source", facts, label=label)
+                else:
+                    ctx.ok(rid, g, st, f"every argument that shapes the construct and varies during the registry's lifetime is determined by the key "
+                                       f"`{ast.unparse(key)[:90]}`", facts, label=label)
     if n_reg == 0:
         f0 = chain_siblings(ctx)[0].f
         ctx.ok(rid, f0, f0.node, "no registry re-uses a delay cascade / buffer for several edges (each call builds its own)",
